@@ -407,7 +407,14 @@ func (c *Compiler) compileAssignStatement(stmt *ast.AssignStatement) error {
 	// Check for redeclaration in current scope (issue #70)
 	// Variables declared with $ cannot be redeclared in the same scope
 	// Built-in variables (query, input, ws, auth) can be shadowed by user declarations
-	if existing, exists := c.symbolTable.ResolveLocal(stmt.Target); exists && !existing.IsBuiltin {
+	// `$ obj.field = value` writes through an existing binding; it declares
+	// nothing. Bytecode has no store-field instruction, and the store emitted
+	// below only creates a variable literally named "obj.field".
+	fieldAssign := strings.Contains(stmt.Target, ".")
+	if fieldAssign {
+		c.limitations = append(c.limitations, Limitation{Construct: "field assignment $ " + stmt.Target})
+	}
+	if existing, exists := c.symbolTable.ResolveLocal(stmt.Target); exists && !existing.IsBuiltin && !fieldAssign {
 		// Emit a specific diagnostic when the colliding symbol came from the
 		// route pattern (issue #235); fall back to the generic message for
 		// user-vs-user collisions.
